@@ -327,7 +327,7 @@ class Walk:
             for part in out.split(" | ")[1].split(";"):
                 if part.startswith("steal:"):
                     _, n, idx = part.split(":")
-                    self.steal_out[int(n)] = [int(x) for x in idx.split(",")]
+                    self.steal_out[int(n)] = [int(x) for x in idx.split(",") if x not in ("", "-")]   # "-": a request for nothing
         return out
 
     def snapshot(self) -> dict:
